@@ -104,6 +104,7 @@ pub fn net_reset(seed: u64, cfg: NetCfg) {
         n.rng = Rng::derive(seed, "net", 0);
         n.log_msgs = true;
     });
+    MSG_TRIGGER.with(|t| *t.borrow_mut() = None);
     install_transport();
 }
 
@@ -160,6 +161,47 @@ thread_local! {
 /// simulated times (us) at which naming snapshot messages were sent in this run
 pub fn naming_snapshot_msg_times() -> Vec<u64> {
     SNAPSHOT_MSGS.with(|v| v.borrow().clone())
+}
+
+/// fault placed on a message: the `nth` message of a type delivered to node `dst` kills that node, either right before
+/// the node handles it or right after it has handled it (the sender sees a reset connection either way)
+#[derive(Clone, Debug)]
+pub struct MsgTrigger {
+    pub ptype: String,
+    pub dst: u64,
+    pub nth: u64,
+    pub after: bool,
+    pub seen: u64,
+    pub fired: bool,
+}
+
+thread_local! {
+    static MSG_TRIGGER: RefCell<Option<MsgTrigger>> = RefCell::new(None);
+}
+
+pub fn set_msg_trigger(ptype: &str, dst: u64, nth: u64, after: bool) {
+    MSG_TRIGGER.with(|t| *t.borrow_mut() = Some(MsgTrigger { ptype: ptype.to_string(), dst, nth, after, seen: 0, fired: false }));
+}
+
+pub fn msg_trigger_fired() -> bool {
+    MSG_TRIGGER.with(|t| t.borrow().as_ref().map(|t| t.fired).unwrap_or(false))
+}
+
+/// 0 = no trigger on this message, 1 = kill before handling, 2 = kill after handling
+fn msg_trigger_hit(ptype: &str, dst: u64) -> u8 {
+    MSG_TRIGGER.with(|t| {
+        let mut t = t.borrow_mut();
+        if let Some(t) = t.as_mut() {
+            if !t.fired && t.dst == dst && ptype == t.ptype {
+                t.seen += 1;
+                if t.seen == t.nth {
+                    t.fired = true;
+                    return if t.after { 2 } else { 1 };
+                }
+            }
+        }
+        0
+    })
 }
 
 fn payload_type(p: &Payload) -> String {
@@ -257,7 +299,22 @@ fn install_transport() {
                     }
                 });
             }
+            let trig = msg_trigger_hit(&ptype, dst_id);
+            if trig == 1 {
+                sim::event(&format!("fault: node {} killed right before handling {} #{}", dst_id, ptype, MSG_TRIGGER.with(|t| t.borrow().as_ref().map(|t| t.nth).unwrap_or(0))));
+                sim::count("fault.kill_on_message", 1);
+                kill_node_now(dst_id, false);
+                tokio::time::sleep(Duration::from_millis(timeout_ms)).await;
+                return Err(anyhow::anyhow!("sim: connection reset"));
+            }
             let r = deliver(&target, payload, &src_cfg).await;
+            if trig == 2 {
+                sim::event(&format!("fault: node {} killed right after handling {} #{}", dst_id, ptype, MSG_TRIGGER.with(|t| t.borrow().as_ref().map(|t| t.nth).unwrap_or(0))));
+                sim::count("fault.kill_on_message", 1);
+                kill_node_now(dst_id, false);
+                tokio::time::sleep(Duration::from_millis(timeout_ms)).await;
+                return Err(anyhow::anyhow!("sim: connection reset"));
+            }
             if drop_resp {
                 sim::count("net.drop_resp", 1);
                 tokio::time::sleep(Duration::from_millis(timeout_ms)).await;
@@ -386,6 +443,12 @@ pub fn leader_changes() -> Vec<LeaderChange> {
 
 /// kill -9: only completed disk mutations survive; the incarnation is fenced at every seam.
 pub async fn kill_node(id: u64) {
+    kill_node_now(id, true);
+}
+
+/// the same without an await point; `local` = called from a task of the actix LocalSet (the transport may run inside a
+/// plain tokio task such as async-raft's replication stream, where spawn_local would panic)
+pub fn kill_node_now(id: u64, local: bool) {
     let n = NET.with(|net| net.borrow_mut().nodes.remove(&node_addr(id)));
     tokio::fs::crash(&node_name(id));
     sim::event(&format!("node kill id={}", id));
@@ -393,9 +456,15 @@ pub async fn kill_node(id: u64) {
     if let Some(n) = n {
         // best effort: stop the raft core task of the dead incarnation (it is fenced anyway)
         let raft = n.app.raft.clone();
-        actix_rt::spawn(async move {
-            let _ = tokio::time::timeout(Duration::from_millis(50), raft.shutdown()).await;
-        });
+        if local {
+            actix_rt::spawn(async move {
+                let _ = tokio::time::timeout(Duration::from_millis(50), raft.shutdown()).await;
+            });
+        } else {
+            tokio::spawn(async move {
+                let _ = tokio::time::timeout(Duration::from_millis(50), raft.shutdown()).await;
+            });
+        }
     }
 }
 
@@ -500,6 +569,7 @@ pub fn records_diff(a: &[(String, Vec<u8>, Vec<u8>)], b: &[(String, Vec<u8>, Vec
 thread_local! {
     static SPIN: RefCell<(u64, u64)> = const { RefCell::new((0, 0)) };
     static SPIN_NOTIFY: Rc<tokio::sync::Notify> = Rc::new(tokio::sync::Notify::new());
+    static SPIN_STUCK: Rc<tokio::sync::Notify> = Rc::new(tokio::sync::Notify::new());
 }
 
 pub fn install_spin_tap() {
@@ -521,6 +591,10 @@ pub fn install_spin_tap() {
             sim::count("probe.needs_snapshot_loop_detected", 1);
             SPIN_NOTIFY.with(|n| n.notify_one());
         }
+        // 30 000 calls at one simulated instant: the writes that usually end the loop cannot commit either
+        if SPIN.with(|s| s.borrow().1) == 30_000 {
+            SPIN_STUCK.with(|n| n.notify_one());
+        }
     }));
 }
 
@@ -531,6 +605,12 @@ pub async fn sleep_or_spin(ms: u64) {
         _ = tokio::time::sleep(Duration::from_millis(ms)) => {}
         _ = n.notified() => {}
     }
+}
+
+/// resolves when the needs-snapshot loop has run 30 000 rounds at one simulated instant (nothing ends it)
+pub async fn spin_stuck() {
+    let n = SPIN_STUCK.with(|n| n.clone());
+    n.notified().await;
 }
 
 /// resolves when the needs-snapshot loop is detected
